@@ -131,6 +131,68 @@ def parse_mermaid(src: str, flat: list[dict]) -> tuple[list, list, list]:
     return list(nodes.values()), edges, expanded
 
 
+def _map_names(g: dict, f: Any, fnode: Any) -> dict:
+    g = copy.deepcopy(g)
+    for n in g["nodes"]:
+        n["name"] = fnode(n["name"])
+        if "params" in n and f is not None:
+            ren = dict(n.get("inRen", []))
+            n["inRen"] = [[p[0], f(ren.get(p[0], p[0]))] for p in n["params"] if f(ren.get(p[0], p[0])) != p[0]]
+        for k in ("dataOuts", "emits", "waitFor"):
+            if k in n and f is not None:
+                n[k] = [f(x) for x in n[k]]
+        if "targets" in n:
+            n["targets"] = [t if t == "__END__" else fnode(t) for t in n["targets"]]
+        if n.get("fallback") not in (None, "__END__"):
+            n["fallback"] = fnode(n["fallback"])
+        b = n.get("body", {})
+        if b.get("b") == "table":
+            def tgt(t: Any) -> Any:
+                if isinstance(t, list):
+                    return [tgt(x) for x in t]
+                return t if t in (None, "__END__") else fnode(t)
+            b["rows"] = [[v, tgt(t)] for v, t in b["rows"]]
+            b["dflt"] = tgt(b["dflt"])
+    if f is not None:
+        g["bound"] = [[f(k), v] for k, v in g.get("bound", [])]
+    return g
+
+
+def prefix_graph(g: dict, pre: str) -> dict:
+    """Rename every node and every value name of one (nesting-free) graph description by a prefix."""
+    return _map_names(g, lambda x: pre + x, lambda x: pre + x)
+
+
+def prefixify(rng: random.Random, program: list[dict]) -> list[dict]:
+    """Rename some nodes so that one node name is a string prefix of a sibling's name (e.g. `n1` / `n1_report`)."""
+    def io(n: dict) -> tuple[set, set]:
+        if n["kind"] == "graph":
+            inner = program[n["inner"]]
+            ii, oo = set(), set()
+            for m in inner["nodes"]:
+                a, b = io(m)
+                ii |= a
+                oo |= b
+            ir, orr = dict(n.get("inRen", [])), dict(n.get("outRen", []))
+            return {ir.get(x, x) for x in ii - oo}, {orr.get(x, x) for x in oo}
+        ren = dict(n.get("inRen", []))
+        return {ren.get(q[0], q[0]) for q in n.get("params", [])}, set(n.get("dataOuts", []))
+
+    out = []
+    for g in program:
+        names = [n["name"] for n in g["nodes"]]
+        if len(names) >= 2:
+            ios = {n["name"]: io(n) for n in g["nodes"]}
+            # prefer pairs whose drawing depends on telling the two ids apart: a shared input, or the longer name consuming the shorter's output
+            pairs = [(x, y) for x in names for y in names if x != y and (ios[x][0] & ios[y][0] or ios[x][1] & ios[y][0])]
+            a, b = rng.choice(pairs) if pairs and rng.random() < 0.8 else rng.sample(names, 2)
+            new_b = a + rng.choice(["_report", "2", "x"])
+            if new_b not in names:
+                g = _map_names(g, None, lambda x, b=b, new_b=new_b: new_b if x == b else x)
+        out.append(g)
+    return out
+
+
 def expected_flat(program: list[dict], gi: int, parent: str | None = None) -> list[tuple[str, str | None]]:
     """(hierarchical id, parent id) of every node, from the DESCRIPTION: each nested node once, under its parent."""
     out = []
@@ -165,11 +227,23 @@ class C20(Prop):
 
     def cases(self, rng: random.Random, tier: str) -> Iterable[dict]:
         while True:
-            if rng.random() < 0.7:
+            r = rng.random()
+            if r < 0.55:
                 c = gen.gen_dag_program(rng, max_nodes=6, depth=rng.choice([1, 1, 2, 2, 3, 3, 0]), allow_fed_default=False, rename_graph_outputs=False)
+                program = c["program"]
+            elif r < 0.75:
+                program = gen.gen_gated_dag(rng, allow_mutex=False)["program"]
             else:
-                c = gen.gen_gated_dag(rng, allow_mutex=False)
-            yield {"program": c["program"]}
+                # a gated graph (gates routing to END included) nested inside another gated graph
+                inner = prefix_graph(gen.gen_gated_dag(rng, max_nodes=5, allow_mutex=False)["program"][0], "i_")
+                outer = gen.gen_gated_dag(rng, max_nodes=5, allow_mutex=False)["program"][0]
+                inner["name"] = "inner"
+                outer["nodes"].append({"name": "sub", "kind": "graph", "inner": 0})
+                rng.shuffle(outer["nodes"])
+                program = [inner, outer]
+            if rng.random() < 0.6:
+                program = prefixify(rng, program)
+            yield {"program": program}
 
     def impl(self, case: dict) -> Any:
         try:
